@@ -396,5 +396,5 @@ Theorem canonical_reparse_refuted_empty_host :
     parse c ipq m (canonical m u) = None.
 Proof.
   exists no_ip, cfg_default, m_get, w_empty_host. eexists.
-  split; [exact no_ip_contract|]. split; vm_compute; reflexivity.
+  split; [exact no_ip_contract|]. split; [vm_compute; reflexivity|]. vm_compute. reflexivity.
 Qed.
